@@ -18,14 +18,14 @@ SCHEMES = [b"http", b"HTTP", b"hTtp", b"https", b"ftp"]
 USERINFO = [b"", b"u@", b"u:p@", b":p@", b"u:@", b"u:p:q@", b"%41b@", b"u%40x:p%3A@", b"a@b@", b"u:p@q@", b"@@"]
 HOSTS = [b"example.com", b"ex%61mple.com", b"8.8.4.4", b"0x7f.1", b"2130706433", b"%31.1.1.1", b"[::1]", b"[0:0:0:0:0:0:0:1]", b"%5B::1%5D",
          b"a-b.example.org", b"010.1.1.1", b"EXAMPLE.COM", b"[::ffff:1.2.3.4]"]
-PORTS = [b"", b":", b":80"]
+PORTS = [b"", b":", b":80", b":65535", b":00080"]
 SEGS = [b"a", b".", b"..", b"%2e", b"%2E%2e", b"%2F", b"%41", b"", b"b%3Fc"]
 QUERIES = [b"", b"?", b"?q=%41", b"?a/b?c%2Fd"]
 FRAGS = [b"", b"#", b"#f%41"]
 EMBED = [(b"", b""), (b"see '", b"' now"), (b"x(", b") y"), (b"\x01\x02", None)]
 
 WIN_PREFIX = [b"C:\\", b"C:", b"\\", b"", b"\\\\host\\sh\\", b"\\\\1.2.3.4@SSL@80\\sh\\", b"\\\\a.com\\sh\\", b"\\\\.\\C:\\", b"\\\\?\\UNC\\a.com\\sh\\",
-              b"\\\\?\\UNC\\8.8.4.4\\sh\\", b"\\\\.\\pipe\\", b"\\\\0x7f.1\\sh\\"]
+              b"\\\\?\\UNC\\8.8.4.4\\sh\\", b"\\\\.\\pipe\\", b"\\\\0x7f.1\\sh\\", b"\\\\host\\c$\\", b"\\\\?\\Volume{01234567-89ab-cdef-0123-456789abcdef}\\", b"\\\\?\\UNC\\a.com\\c$\\"]
 WIN_SEGS = [b"abc", b".", b"..", b"a.b"]
 WIN_FILES = [b"x.exe", b"y.dll", b"z.txt", b"noext", b"a.b.DLL"]
 WIN_EMBED = [(b"", b""), (b"x ", b" y"), (b'"', b'"')]
